@@ -365,7 +365,8 @@ impl Node {
                     })?;
                     let var_update_path_tree =
                         w.declare_var_on_top_scope_init(|w, var_update_path_tree| {
-                            write!(w, "C?!0:W.{}", slot_value_name)?;
+                            // (`W` is absent when the content is not updated as slot content)
+                            write!(w, "C?!0:Z(W,{})", gen_lit_str(slot_value_name))?;
                             Ok(var_update_path_tree)
                         })?;
                     var_slot_map.insert(slot_value_name.clone(), (var_scope, var_update_path_tree));
